@@ -402,6 +402,14 @@ def items_C03(tier, seed, P):
         it['opts'] = {'panics_ok': True}
         its.append(it)
     its += api_items('C03', tier, seed, {'C03'}, opts={'panics_ok': True})
+    # N=5 work-list shapes (see worklist_shapes5): an orphaned group of five is destroyed whatever the table order
+    for (e, nm) in worklist_shapes5(tier, seed)[:2 if tier == 'quick' else None]:
+        rl = random.Random('c03-n5|%s|%d' % (nm, seed))
+        lays = [None] + [('rank', tuple(rl.sample(range(5), 5)), tuple(rl.sample(range(3), 3)), rl.choice(['obj', 'kind']), rl.random() < 0.5) for _ in range(8 if tier == 'quick' else 40)]
+        for last in ((0, 3) if tier == 'quick' else range(5)):
+            seq = [('h', i) for i in range(5) if i != last] + [('h', last)]
+            its.append(dict(prop='C03', name='%s last=%d' % (nm, last), script={'ops': F.build_ops(5, e, extras=True) + F.drop_ops(seq)}, sym=True,
+                            oracles={'C03'}, opts={'panics_ok': True}, layouts=lays))
     return its
 
 
@@ -666,9 +674,51 @@ def items_C05(tier, seed, P):
 PROPS['C05'] = dict(items=items_C05, bounds=BOUNDS_GRAPH, outside=OUTSIDE, vacuity=vac_paths('dtor', 'multi_destroy_ops', 'upgrade:some', 'upgrade:none', 'try_unwrap:ok', 'make_mut:moved'), replay_oracles=['C05'])
 
 
+def leave_by_api_items(tier, seed):
+    """objects whose adoption table was used and is empty again (unadopt, or the neighbour died first) and whose value then
+    leaves through try_unwrap / make_mut (value moved because a Weak remains) -- and the same with the table still in use;
+    at the end everything is dropped and every allocation, tables included, must have been released"""
+    items = []
+    o = {'expect_all_freed': True, 'panics_ok': True}
+    for a in ((1, 2) if tier == 'quick' else (1, 2, 3)):
+        for hist in ('unadopted', 'adopter-died-first', 'adoptee-died-first', 'still-adopted'):
+            for api in ('try_unwrap', 'make_mut'):
+                for who in (0, 1):
+                    if hist == 'adopter-died-first' and who == 0 or hist == 'adoptee-died-first' and who == 1:
+                        continue
+                    ops = [{'op': 'new', 'obj': 0, 'as': 'h0'}, {'op': 'new', 'obj': 1, 'as': 'h1'}, {'op': 'wextras', 'h': H(who), 'n': 'w%d' % who}]
+                    for k in range(a):
+                        ops += [{'op': 'clone', 'h': 'h1', 'as': 't%d' % k}, {'op': 'adopt', 'a': 'h0', 'b': 't%d' % k}, {'op': 'store', 'via': 'h0', 'h': 't%d' % k}]
+                    if hist == 'unadopted':
+                        for k in range(a):
+                            ops += [{'op': 'take', 'via': 'h0', 'slot': 0, 'as': 'u%d' % k}, {'op': 'unadopt', 'a': 'h0', 'b': 'u%d' % k}, {'op': 'drop', 'h': 'u%d' % k}]
+                    elif hist == 'adopter-died-first':
+                        ops += [{'op': 'drop', 'h': 'h0'}]
+                    elif hist == 'adoptee-died-first':
+                        # the owner lets go of its handles without unadopt, then the adoptee dies
+                        for k in range(a):
+                            ops += [{'op': 'take', 'via': 'h0', 'slot': 0, 'as': 'u%d' % k}, {'op': 'drop', 'h': 'u%d' % k}]
+                        ops += [{'op': 'drop', 'h': 'h1'}]
+                    elif who == 1:
+                        # still adopted: the target can only be unwrapped when the owner's stored handles are gone
+                        for k in range(a):
+                            ops += [{'op': 'take', 'via': 'h0', 'slot': 0, 'as': 'u%d' % k}, {'op': 'drop', 'h': 'u%d' % k}]
+                    if api == 'make_mut':
+                        ops += [{'op': 'downgrade', 'h': H(who), 'as': 'ow'}, {'op': 'make_mut', 'h': H(who)}, {'op': 'upgrade', 'w': 'ow'}, {'op': 'wdrop', 'w': 'ow'}]
+                        ops += [{'op': 'drop_all_wextras', 'obj': who}, {'op': 'drop', 'h': H(who)}]
+                    else:
+                        ops += [{'op': 'try_unwrap', 'h': H(who), 'as': 'res'}, {'op': 'drop_value', 'v': 'res'}, {'op': 'drop_all_wextras', 'obj': who}]
+                    other = 1 - who
+                    if not (hist == 'adopter-died-first' and other == 0) and not (hist == 'adoptee-died-first' and other == 1):
+                        ops += [{'op': 'drop', 'h': H(other)}]
+                    items.append(dict(prop='C04', name='leave-by-%s %s x%d on %d' % (api, hist, a, who), script={'ops': ops}, sym=True, oracles={'C04'}, opts=o,
+                                      layouts=std_layouts(2, tier, seed)[:2]))
+    return items
+
+
 def items_C04(tier, seed, P):
     o = {'expect_all_freed': True}
-    return (weak_graph_items('C04', tier, seed, {'C04'}, opts=o, end_all=True)
+    return (leave_by_api_items(tier, seed) + weak_graph_items('C04', tier, seed, {'C04'}, opts=o, end_all=True)
             + weak_graph_items('C04', tier, seed, {'C04'}, opts=o, end_all=True, dtor_upgrades=False, one_weak=True)     # the only Weak lives inside a value
             + lemma_items('C04', ['weakdrop']))
 
@@ -710,11 +760,33 @@ def items_C16(tier, seed, P):
     return items
 
 
+def _debug_profile_copies(items, pred, limit):
+    """the same work items once more on the MIR of the debug profile (debug assertions on)"""
+    out = []
+    for it in items:
+        if len(out) >= limit:
+            break
+        if pred(it):
+            c = dict(it)
+            c['profile'] = 'debug'
+            c['name'] = it['name'] + ' [debug profile]'
+            out.append(c)
+    return out
+
+
 def vac_C16(results, extra):
     ab = sum(r['outcomes'].get('abort', 0) for r in results if not r['name'].startswith('lemma'))
     if ab == 0:
         return 'no scenario path reached a clone of a dead handle (abort)'
     return None
+
+
+_items_C16_release = items_C16
+
+
+def items_C16(tier, seed, P):
+    its = _items_C16_release(tier, seed, P)
+    return its + _debug_profile_copies(its, lambda it: not it['name'].startswith('lemma') and ('ring2 ' in it['name'] or 'ring3 ' in it['name'] or 'selfclone' in it['name']), 60 if tier == 'quick' else 400)
 
 
 PROPS['C16'] = dict(items=items_C16, bounds={'quick': {'unit': 'inc_strong / Rc::clone over all 2^64 counter values', 'scenarios': 'ring2, self-clone, named N=3 shapes; each member destructor clones each handle it holds; 2 drop orders; 3 layouts'},
@@ -816,6 +888,17 @@ def items_C11(tier, seed, P):
                 items.append(dict(prop='C11', name='%s panic@%d drops=%s' % (nm, k, ''.join('%s%d' % s for s in seq)), script={'ops': ops}, sym=True,
                                   oracles={'C11', 'C01', 'C02', 'C05'}, accept_props=['C11', 'C01', 'C02', 'C05'], relabel=True, ub_prop='C11',
                                   opts={}, layouts=std_layouts(n, tier, seed)[:3 if tier == 'quick' else 6]))
+                # the same history with no Weak observer anywhere: allocations whose last Weak is the implicit one may be
+                # released by the interrupted teardown, and the destructors that still run afterwards drop their stored handles
+                ops2 = F.build_ops(n, e, extras=True, wextras=False)
+                ops2.append({'op': 'on_drop_panic', 'obj': k})
+                for (kk, i) in seq:
+                    ops2.append({'op': 'catch', 'do': F.drop_ops([(kk, i)])})
+                    for (k2, j) in seq[seq.index((kk, i)) + 1:]:
+                        ops2 += [{'op': 'strong_count', 'h': H(j)}, {'op': 'deref', 'h': H(j)}]
+                items.append(dict(prop='C11', name='%s (no observers) panic@%d drops=%s' % (nm, k, ''.join('%s%d' % s for s in seq)), script={'ops': ops2}, sym=True,
+                                  oracles={'C11', 'C01', 'C02'}, accept_props=['C11', 'C01', 'C02'], relabel=True, ub_prop='C11',
+                                  opts={}, layouts=std_layouts(n, tier, seed)[:2 if tier == 'quick' else 4]))
     # make_mut on the last outside handle of a group (value cloned into a fresh allocation, old handle released inside make_mut):
     # the release collects the group and one destructor panics; afterwards the caller's handle must be the fresh copy
     for (n, e, nm) in [(2, [R(0, 1), R(1, 0)], 'ring2'), (3, F.named_shapes(3)['ring3'], 'ring3'), (1, [(0, 0, True, False)], 'selfclone1')]:
@@ -1026,14 +1109,32 @@ def items_C14(tier, seed, P):
     add('self-adopted-then-unadopted', ops + cost_all('h0', 'a'), 1)
     ops = [{'op': 'new', 'obj': 0, 'as': 'h0'}, {'op': 'extras', 'h': 'h0', 'n': 'e0'}, {'op': 'adopt', 'a': 'h0', 'b': 'h0'}, {'op': 'unadopt', 'a': 'h0', 'b': 'h0'}]
     add('same-handle-adopted-then-unadopted', ops + cost_all('h0', 'a'), 1)
+    # (e) all of the object's adoptions ended because its only neighbour was destroyed (a X->Y, b Y->X records; X let go of
+    #     its handles to Y with or without unadopt): the survivor X has no adoptions left
+    for (a, b) in ([(1, 0), (0, 1), (1, 1), (2, 1), (1, 2)] if tier == 'quick' else [(x, y) for x in range(4) for y in range(4) if x + y]):
+        for stale in (True, False):
+            if not stale and a == 0:
+                continue
+            ops = [{'op': 'new', 'obj': 0, 'as': 'h0'}, {'op': 'new', 'obj': 1, 'as': 'h1'}, {'op': 'extras', 'h': 'h0', 'n': 'e0'}]
+            for k in range(a):
+                ops += [{'op': 'clone', 'h': 'h1', 'as': 'ta%d' % k}, {'op': 'adopt', 'a': 'h0', 'b': 'ta%d' % k}, {'op': 'store', 'via': 'h0', 'h': 'ta%d' % k}]
+            for k in range(b):
+                ops += [{'op': 'clone', 'h': 'h0', 'as': 'tb%d' % k}, {'op': 'adopt', 'a': 'h1', 'b': 'tb%d' % k}, {'op': 'store', 'via': 'h1', 'h': 'tb%d' % k}]
+            for k in range(a):
+                ops += [{'op': 'take', 'via': 'h0', 'slot': 0, 'as': 'ua%d' % k}]
+                if not stale:
+                    ops += [{'op': 'unadopt', 'a': 'h0', 'b': 'ua%d' % k}]
+                ops += [{'op': 'drop', 'h': 'ua%d' % k}]
+            ops += [{'op': 'drop', 'h': 'h1'}]          # Y is destroyed here (it has no other handle)
+            add('neighbour-destroyed a=%d b=%d %s' % (a, b, 'stale' if stale else 'unadopted'), ops + cost_all('h0', 'a'), 2)
     # vacuity witness: an object WITH a recorded adoption must be seen to trace
     ops = F.build_ops(2, ring, extras=True) + [{'op': 'cost_clone', 'h': 'h0', 'as': 'cc'}, {'op': 'cost_drop', 'h': 'cc'}]
     add('witness:adopted-object-traces', ops, 2, witness=True)
     return items
 
 
-PROPS['C14'] = dict(items=items_C14, bounds={'quick': {'states': 'never adopted; adopted 1..2 times and fully unadopted (also one unadopt too many), as owner and as target; unadopted object stored inside an adopted ring; self adoption (clone / same handle) then unadopt', 'calls': 'clone, drop of the clone, drop of the named handle (may be the last)', 'counters': 'extras e_j, w_j symbolic 64-bit', 'events': 'calls of cycle_refs / orphaned_cycle and allocation events (Global.allocate, Box, Vec growth, first insertion into a table) in the frames of the call under test; nested drops of handles stored in a destroyed value are excluded'},
-                                             'thorough': {'states': 'adopted up to 3 times'}},
+PROPS['C14'] = dict(items=items_C14, bounds={'quick': {'states': 'never adopted; adopted 1..2 times and fully unadopted (also one unadopt too many), as owner and as target; unadopted object stored inside an adopted ring; self adoption (clone / same handle) then unadopt; the only neighbour destroyed with a X->Y and b Y->X records (a,b <= 2, handles let go with or without unadopt)', 'calls': 'clone, drop of the clone, drop of the named handle (may be the last)', 'counters': 'extras e_j, w_j symbolic 64-bit', 'events': 'calls of cycle_refs / orphaned_cycle and allocation events (Global.allocate, Box, Vec growth, first insertion into a table) in the frames of the call under test; nested drops of handles stored in a destroyed value are excluded'},
+                                             'thorough': {'states': 'adopted up to 3 times; neighbour-destroyed with a,b <= 3'}},
                     outside=OUTSIDE, vacuity=vac_paths('cost', 'dtor'), replay_oracles=['C14'])
 
 
@@ -1316,6 +1417,35 @@ def _c09_post_item(item, res):
     res['oracle_queries'] += nq
 
 
+def worklist_shapes5(tier, seed):
+    R = lambda i, j: (i, j, True, False)
+    out = [([R(0, 1), R(0, 2), R(2, 4), R(2, 3), R(3, 4), R(4, 0), R(1, 0)], 'N5[shortcut-diamond under a common adopter]'),
+           ([R(0, 1), R(0, 2), R(1, 3), R(2, 3), R(3, 4), R(4, 0), R(1, 2)], 'N5[diamond+cross edge, tail closes]')]
+    rnd = random.Random(9100 + seed)
+    want = 2 if tier == 'quick' else 10
+    tries = 0
+    while len(out) < 2 + want and tries < 1000:
+        tries += 1
+        m = rnd.randint(6, 8)
+        pairs = [(i, j) for i in range(5) for j in range(5) if i != j]
+        e = [R(i, j) for (i, j) in rnd.sample(pairs, m)]
+        # strongly connected (every member reaches every other): the whole graph is one group
+        adj = {i: [j for (a, j, _, _) in e if a == i] for i in range(5)}
+        def reach(s):
+            seen = {s}
+            st = [s]
+            while st:
+                x = st.pop()
+                for y in adj[x]:
+                    if y not in seen:
+                        seen.add(y)
+                        st.append(y)
+            return seen
+        if all(len(reach(s)) == 5 for s in range(5)):
+            out.append((e, 'N5[seeded %s]' % ' '.join('%d>%d' % (i, j) for (i, j, _, _) in e)))
+    return out
+
+
 def items_C09(tier, seed, P):
     items = []
     shapes = []
@@ -1345,6 +1475,25 @@ def items_C09(tier, seed, P):
                 for j in range(n):
                     ops += [{'op': 'w_strong_count', 'w': 'ow%d' % j}, {'op': 'w_weak_count', 'w': 'ow%d' % j}]
             items.append(dict(prop='C09', name='%s drops=%s' % (nm, ''.join('%s%d' % q for q in seq)), script={'ops': ops}, sym=True, oracles=set(),
+                              opts={'panics_ok': True, 'abort_ok': True}, layouts=lays, collect=_c09_collect, post_item=_c09_post_item, accept_props=['C09'],
+                              max_paths=20000))
+    # N=5 work-list shapes: a member reached over several routes of different length while other members still wait on the work
+    # list (transitive triangle + sibling branch under a common adopter), and seeded strongly connected N=5 graphs. The drop
+    # orders are the five that end with a different object each; many table orders.
+    for (e, nm) in worklist_shapes5(tier, seed):
+        base = F.build_ops(5, e, extras=True)
+        for i in range(5):
+            base.append({'op': 'downgrade', 'h': H(i), 'as': 'ow%d' % i})
+        rl = random.Random('c09-n5|%s|%d' % (nm, seed))
+        lays = [None] + [('rank', tuple(rl.sample(range(5), 5)), tuple(rl.sample(range(3), 3)), rl.choice(['obj', 'kind']), rl.random() < 0.5) for _ in range(14 if tier == 'quick' else 60)]
+        for last in range(5):
+            seq = [('h', i) for i in range(5) if i != last] + [('h', last)]
+            ops = list(base)
+            for (k, i) in seq:
+                ops += F.drop_ops([(k, i)])
+                for j in range(5):
+                    ops += [{'op': 'w_strong_count', 'w': 'ow%d' % j}]
+            items.append(dict(prop='C09', name='%s last=%d' % (nm, last), script={'ops': ops}, sym=True, oracles=set(),
                               opts={'panics_ok': True, 'abort_ok': True}, layouts=lays, collect=_c09_collect, post_item=_c09_post_item, accept_props=['C09'],
                               max_paths=20000))
     # every stored handle recorded, but a handle is given up without `unadopt` (allowed): pair with unequal multiplicities next to a ring
